@@ -112,6 +112,11 @@ type wConf struct {
 	Rename       bool          `json:"rename"`
 	Backoff      float64       `json:"backoff"`
 	MaxLatency   time.Duration `json:"max_latency"`
+	// files that cannot be opened by the first sender instance (hashing fails: the cache
+	// keeps them without a hash), and ignore patterns the operator adds before the
+	// second instance starts
+	OpenFailGen1   []string `json:"open_fails_in_first_instance,omitempty"`
+	IgnoreFromGen2 []string `json:"ignore_patterns_from_second_instance,omitempty"`
 }
 
 func defaultConf(rng *rand.Rand) *wConf {
@@ -479,6 +484,11 @@ func (w *world) startSender() *sender {
 	s := &sender{w: w, gen: w.sndGen, stop: make(chan bool, 2), done: make(chan bool, 2)}
 	c := w.conf
 	s.store = &store.Local{Root: w.outDir, MinAge: c.MinAge}
+	if s.gen >= 2 {
+		for _, p := range c.IgnoreFromGen2 {
+			s.store.Ignore = append(s.store.Ignore, regexp.MustCompile(p))
+		}
+	}
 	s.store.AddStandardIgnore()
 	var err error
 	s.cache, err = cache.NewJSON(w.cacheDir, w.outDir, "")
@@ -1049,6 +1059,13 @@ func (t *storeWrap) GetOpener() sts.Open {
 		t.s.actionNoPark("store:open")
 		if t.s.isDead() {
 			return nil, errConn
+		}
+		if t.s.gen == 1 {
+			for _, n := range t.s.w.conf.OpenFailGen1 {
+				if n == f.GetName() {
+					return nil, fmt.Errorf("open %s: permission denied (injected)", f.GetPath())
+				}
+			}
 		}
 		return t.s.store.Open(f)
 	}
